@@ -726,12 +726,14 @@ Lemma WReach_step w e : WReach w -> WReach (fst (step w e)).
 Proof.
   intros H. destruct e; cbn [step].
   - (* EListen *)
+    destruct (slot_used w slot); [assumption|].
     destruct (get_host w h) as [k|] eqn:G; [|assumption]. pose proof (WReach_get _ _ _ H G) as Hk.
     pose proof (kreach_kstep k (KBind (mkip (w6 w) a, port) true) Hk) as H1. cbn in H1.
     destruct (k_bind k (mkip (w6 w) a, port) true) as [k1 [|fd|er]]; cbn in *;
       try (apply WReach_set_host; assumption).
     apply WReach_slot_put, WReach_set_host; [assumption|]. apply (kreach_kstep k1 (KListen fd _) H1).
   - (* EConnect *)
+    destruct (slot_used w slot); [assumption|].
     destruct (get_host w h) as [k|] eqn:G; [|assumption]. pose proof (WReach_get _ _ _ H G) as Hk.
     pose proof (kreach_kstep k (KOpen (w6 w) true) Hk) as H1.
     change (kstep k (KOpen (w6 w) true)) with (fst (insert_sock k (new_socket (w6 w) true))) in H1.
@@ -756,11 +758,12 @@ Proof.
     destruct (get_host w h) as [k|] eqn:G; [|assumption]. pose proof (WReach_get _ _ _ H G) as Hk.
     apply WReach_slot_rm, WReach_set_host; [assumption|]. apply (kreach_kstep k (KClose fd) Hk).
   - (* EAccept *)
+    destruct (slot_used w nslot); [assumption|].
     destruct (slot_get (slots w) lslot) as [[h fd peer|h fd|h fd|h fd]|]; try assumption.
     destruct (get_host w h) as [k|] eqn:G; [|assumption]. pose proof (WReach_get _ _ _ H G) as Hk.
     pose proof (kreach_kstep k (KAccept fd) Hk) as H2. cbn in H2.
     destruct (k_poll_accept k fd) as [k2 [|[c p]|er]]; cbn in *;
-      [|apply WReach_slot_put|]; apply WReach_set_host; assumption.
+      [apply WReach_set_host; assumption|apply WReach_slot_put, WReach_set_host; assumption|assumption].
   - (* EWrite *)
     destruct (slot_get (slots w) slot) as [[h fd peer|h fd|h fd|h fd]|]; try assumption.
     destruct (get_host w h) as [k|] eqn:G; [|assumption]. pose proof (WReach_get _ _ _ H G) as Hk.
@@ -800,6 +803,7 @@ Proof.
   - destruct (get_host w h); assumption.
   - destruct (get_host w h); assumption.
   - (* EUdpBind *)
+    destruct (slot_used w slot); [assumption|].
     destruct (get_host w h) as [k|] eqn:G; [|assumption]. pose proof (WReach_get _ _ _ H G) as Hk.
     pose proof (kreach_kstep k (KBind (mkip (w6 w) a, port) false) Hk) as H1. cbn in H1.
     destruct (k_bind k (mkip (w6 w) a, port) false) as [k1 [|fd|er]]; cbn in *;
